@@ -63,6 +63,12 @@ CLAIMED = {
         "known finding KF-C08-filtered-duplicates (pinned by test_filtered) is mirrored by the model, characterised exactly (stripDup) and reported as KNOWN-FINDING",
         "DESIGN.md §6 C08",
     ),
+    "C18": (
+        "Lean 4 theorems about a small-step lock semantics + `decide` over the lock programs regenerated from the source text + controlled two-thread schedules on the real code",
+        "The translator abstracts every snapshot method of the source to a program over acq/rel/read/call; `generated_guarded` (decide over the regenerated table) states that every read happens while the lock is held and `generated_reentrant` that the lock is an RLock; the interleaving theorems (mutual exclusion, snapshot atomicity, blocking, no self-deadlock) hold for all guarded programs and all schedules. Tie/search: thread A holds `with tree:` with a sentinel in the tree while thread B runs each snapshot operation; B must block and never see the sentinel; nested re-entrant use; stress runs with paired writes.",
+        "CPython's scheduler/GIL and RLock implementation are outside the model; the syntactic abstraction of the translator over-approximates reads",
+        "DESIGN.md §6 C18",
+    ),
     "C09": (
         "Lean 4 theorems (search loop with counter/break = filter+take; index access decision table) + differential correspondence",
         "Theorems in lean/Nutree/Properties/C09.lean: the `_search` loop equals the matching nodes of the pre-order cut to the first k; find_first = head; index lookups with a limit are a prefix of the clone list; tree[key] resolves node_id, then data_id, then data with KeyError/Ambiguous/ValueError as specified. Tie: all small forests with clones x start nodes x patterns x limits x key kinds.",
